@@ -8,6 +8,7 @@ import (
 	"flag"
 	"fmt"
 	"go/parser"
+	"golang.org/x/tools/go/ssa"
 	"os"
 	"path/filepath"
 	"sort"
@@ -173,6 +174,12 @@ func cmdCheck(args []string) {
 		}
 	}
 	// type-level obligations
+	writerObls, writerFails := eng.checkWriters(*prop)
+	for _, f := range writerFails {
+		p := writeReplay("writers-"+sanitize(f), map[string]interface{}{"obligation": f, "error": "a function without a contract writes a sync.Map that the contracts of this property track as ghost state; what it stores is unchecked"})
+		fmt.Printf("UNDISCHARGED %s\n", f)
+		report(p, " no-failing-input-found")
+	}
 	lackObls, lackFails := eng.checkLacks(*prop)
 	for _, f := range lackFails {
 		p := writeReplay("lacks-"+f, map[string]interface{}{"obligation": f, "error": "method-set obligation failed (go/types)"})
@@ -321,7 +328,20 @@ func cmdCheck(args []string) {
 		report(p, suffix)
 	}
 
-	nObl := len(order) + len(lackObls)
+	nObl := len(order) + len(lackObls) + len(writerObls)
+	for _, l := range writerObls {
+		st := "discharged"
+		for _, f := range writerFails {
+			if strings.HasPrefix(f, l) {
+				st = "FAILED"
+			}
+		}
+		perObl = append(perObl, map[string]interface{}{"name": l, "backend": "go/ssa scan of sync.Map writers", "status": st})
+		if st == "discharged" {
+			discharged++
+			byBackend["go/ssa writer scan"]++
+		}
+	}
 	discharged += len(lackObls) - len(lackFails)
 	for _, l := range lackObls {
 		perObl = append(perObl, map[string]interface{}{"name": l, "backend": "go/types method sets", "status": "discharged"})
@@ -438,6 +458,83 @@ func (e *Engine) evalExcluding(fr *FuncResult, src string) (t *Term, err error) 
 }
 
 // checkLacks discharges the method-set obligations of `type T lacks I...` directives.
+// checkWriters: a sync.Map field that the contracts track as a ghost map may only be written by functions
+// that are under contract (or executed in place by one): a named function of the package that stores into or
+// deletes from it and has no contract is an unchecked entry point to the tracked state.
+func (e *Engine) checkWriters(prop string) (names []string, fails []string) {
+	for _, k := range sortedKeys(e.cs.SyncMaps) {
+		sm := e.cs.SyncMaps[k]
+		if !hasProp(sm.Props, prop) {
+			continue
+		}
+		parts := strings.SplitN(sm.Field, ".", 2)
+		if len(parts) != 2 {
+			continue
+		}
+		name := calleeShort(sm.Pkg+"."+parts[0]) + ":writers." + parts[1]
+		names = append(names, name)
+		var bad []string
+		for fk, fn := range e.funcs {
+			if fn.Blocks == nil || fn.Pkg == nil || fn.Pkg.Pkg.Path() != sm.Pkg || fn.Parent() != nil || fn.Synthetic != "" {
+				continue
+			}
+			if e.cs.Funcs[fk] != nil {
+				continue
+			}
+			if writesSyncMapField(fn, parts[0], parts[1]) {
+				bad = append(bad, calleeShort(fk))
+			}
+		}
+		sort.Strings(bad)
+		if len(bad) > 0 {
+			fails = append(fails, name+" (no contract: "+strings.Join(bad, ", ")+")")
+		}
+	}
+	return
+}
+
+func writesSyncMapField(fn *ssa.Function, typeName, field string) bool {
+	var scan func(f *ssa.Function) bool
+	scan = func(f *ssa.Function) bool {
+		for _, b := range f.Blocks {
+			for _, in := range b.Instrs {
+				call, ok := in.(ssa.CallInstruction)
+				if !ok {
+					continue
+				}
+				cc := call.Common()
+				callee := cc.StaticCallee()
+				if callee == nil || cc.IsInvoke() || len(cc.Args) == 0 {
+					continue
+				}
+				switch callee.String() {
+				case "(*sync.Map).Store", "(*sync.Map).Delete", "(*sync.Map).LoadOrStore", "(*sync.Map).LoadAndDelete", "(*sync.Map).Swap", "(*sync.Map).CompareAndSwap", "(*sync.Map).CompareAndDelete", "(*sync.Map).Clear":
+				default:
+					continue
+				}
+				fa, ok := cc.Args[0].(*ssa.FieldAddr)
+				if !ok {
+					continue
+				}
+				owner := namedOf(derefType(fa.X.Type()))
+				if owner == nil || owner.Obj().Name() != typeName {
+					continue
+				}
+				if st := structOf(owner); st != nil && st.Field(fa.Field).Name() == field {
+					return true
+				}
+			}
+		}
+		for _, a := range f.AnonFuncs {
+			if scan(a) {
+				return true
+			}
+		}
+		return false
+	}
+	return scan(fn)
+}
+
 func (e *Engine) checkLacks(prop string) (names []string, fails []string) {
 	for _, lk := range e.cs.Lacks {
 		if !hasProp(lk.Props, prop) {
